@@ -309,3 +309,148 @@ def rule_clock_forwarded(ctx, floor=3):
                       msg=f"{f.name} has a clock at hand ({sorted(clock)}) but builds the PerformedPart without {missing}: the part declares the "
                           f"default value while its notes' ticks were computed with the other one, so seconds and ticks disagree")
     ctx.floor(rule, "PerformedPart constructions with a clock at hand", n, floor)
+
+
+def rule_number_patterns_quantified(ctx, modnames: List[str], floor=2):
+    """RX-number: a regular expression whose match is converted with int()/float()/Fraction reads the whole number."""
+    rule = "RX-number"
+    ctx.rule(rule, "where the text matched by a literal regular expression is converted to a number (int(re.search(P, s).group(..))), "
+                   "every digit class of P is repeated (`+`, `*` or {m,n} with n > 1): a count such as 12 in *M12/8 is read whole")
+    import re as _re
+    try:
+        from re import _parser as sre_parse, _constants as sre_c
+    except ImportError:  # pragma: no cover
+        import sre_parse, sre_constants as sre_c
+    n = 0
+    for m in modnames:
+        for f in ctx.prog.functions_in(m):
+            for c in own_nodes(f.node):
+                if not (isinstance(c, ast.Call) and isinstance(c.func, ast.Name) and c.func.id in ("int", "float", "Fraction") and c.args):
+                    continue
+                pats = [x for x in ast.walk(c.args[0]) if isinstance(x, ast.Call) and norm(x.func) in ("re.search", "re.match", "re.fullmatch", "re.findall")
+                        and x.args and isinstance(x.args[0], ast.Constant) and isinstance(x.args[0].value, str)]
+                for p in pats:
+                    n += 1
+                    ctx.touch(f)
+                    try:
+                        tree = sre_parse.parse(p.args[0].value)
+                    except Exception as e:
+                        raise AnalysisError(rule, f.qname, f"pattern {p.args[0].value!r} does not parse: {e}")
+                    single = []
+
+                    def walk(items, repeated):
+                        for op, av in items:
+                            name = str(op)
+                            if name in ("MAX_REPEAT", "MIN_REPEAT", "POSSESSIVE_REPEAT"):
+                                lo, hi, sub = av
+                                walk(sub, repeated or hi > 1)
+                            elif name == "SUBPATTERN":
+                                walk(av[-1], repeated)
+                            elif name == "BRANCH":
+                                for alt in av[1]:
+                                    walk(alt, repeated)
+                            elif name == "IN":
+                                digit = any((str(o) == "CATEGORY" and "DIGIT" in str(a) and "NOT" not in str(a)) or
+                                            (str(o) == "RANGE" and a == (48, 57)) for o, a in av)
+                                if digit and not repeated:
+                                    single.append(av)
+                            elif name == "CATEGORY" and "DIGIT" in str(av) and "NOT" not in str(av) and not repeated:
+                                single.append(av)
+                    walk(list(tree), False)
+                    ctx.check(not single, rule, f"{f.qname}:{p.args[0].value!r}", func=f, node=p, construct=f"single-digit:{p.args[0].value}",
+                              msg=f"the pattern {p.args[0].value!r} matches one digit only and its match is converted with {c.func.id}(): "
+                                  f"a value of two or more digits (12 in *M12/8) is read as its first digit")
+    ctx.floor(rule, "number patterns", n, floor)
+
+
+def rule_mode_parameter_only(ctx, modname="partitura.score", param="musical_beat", field="_use_musical_beat"):
+    """MODE-param: a map builder that receives the beat mode as an argument does not look at the part's switch itself."""
+    rule = "MODE-param"
+    ctx.rule(rule, f"a function that takes the beat mode as its parameter `{param}` never reads `self.{field}`: the quarter maps "
+                   f"(which pass {param}=False) do not depend on the mode the part is switched to, and forward and inverse maps built "
+                   f"from the same arguments are built the same way")
+    n = 0
+    for f in ctx.prog.functions_in(modname):
+        if param not in f.all_params:
+            continue
+        n += 1
+        ctx.touch(f)
+        for x in own_nodes(f.node):
+            if isinstance(x, ast.Attribute) and x.attr == field and isinstance(x.ctx, ast.Load):
+                ctx.check(False, rule, f"{f.qname}:{field}", func=f, node=x, construct=f"mode-read-from-state:{f.name}",
+                          msg=f"{f.name} takes `{param}` but reads `self.{field}`: a map requested with {param}=False (the quarter map) now "
+                              f"changes with the part's beat mode — e.g. a 6/8 pickup is judged against the musical-beat count")
+    ctx.floor(rule, f"functions taking `{param}`", n, 1)
+    ctx.ok(rule, f"{n} function(s) taking `{param}` do not read self.{field}")
+
+
+def rule_statement_order_siblings(ctx, q="partitura.io.importkern:element_parsing", table="line2pos", cursor="current_tl_pos", floor=2):
+    """ORDER-sib: the position table records where a line *starts*: in every branch that both records the line and advances
+    the cursor, the record comes first."""
+    rule = "ORDER-sib"
+    ctx.rule(rule, f"in {q.split(':')[1]} every block that stores `{table}[..] = {cursor}` and assigns `{cursor}` stores first: the table holds "
+                   f"the position at which the line starts (other spines of the same part are placed from it)")
+    from ..core.program import pos
+    f = ctx.prog.func(q, rule)
+    ctx.touch(f)
+    n = 0
+    for blk in ast.walk(f.node):
+        for fld in ("body", "orelse"):
+            b = getattr(blk, fld, None)
+            if not isinstance(b, list):
+                continue
+            stores = [s for s in b if isinstance(s, ast.Assign) and len(s.targets) == 1 and isinstance(s.targets[0], ast.Subscript)
+                      and norm(s.targets[0].value) == table and norm(s.value) == cursor]
+            moves = [s for s in b if isinstance(s, ast.Assign) and len(s.targets) == 1 and norm(s.targets[0]) == cursor]
+            if stores and moves:
+                n += 1
+                ok = all(pos(st) < pos(mv) for st in stores for mv in moves)
+                ctx.check(ok, rule, f"{q}:line {stores[0].lineno}", func=f, node=stores[0], construct=f"recorded-after-advance:{table}",
+                          msg=f"`{norm(stores[0])}` runs after `{norm(moves[0])[:40]}`: the line is recorded at the position where its element "
+                              f"ends, so tokens of later spines on the same line are placed one duration too late")
+    ctx.floor(rule, "blocks that record and advance", n, floor)
+
+
+def rule_dispatch_on_whole_argument(ctx, q="partitura.utils.music:ensure_notearray", method="note_array"):
+    """ENSURE-whole: the array of a Score / Performance / part is the array of the whole object."""
+    rule = "ENSURE-whole"
+    ctx.rule(rule, f"{q.split(':')[1]} obtains the array of an object by calling `.{method}()` on the argument itself in every branch, never "
+                   f"on an element of it (a Performance with several performed parts, a Score with several parts)")
+    f = ctx.prog.func(q, rule)
+    ctx.touch(f)
+    p0 = f.params[0]
+    n = 0
+    for c in own_nodes(f.node):
+        if isinstance(c, ast.Call) and isinstance(c.func, ast.Attribute) and c.func.attr == method:
+            n += 1
+            recv = c.func.value
+            ctx.check(isinstance(recv, ast.Name) and recv.id == p0, rule, f"{q}:`{norm(c)[:40]}`", func=f, node=c, construct="array-of-an-element",
+                      msg=f"`{norm(c)[:60]}` takes the array of `{norm(recv)}`, not of the argument `{p0}`: the notes of every other part of "
+                          f"the object are silently dropped")
+    ctx.floor(rule, f".{method}() calls", n, 1)
+
+
+def rule_parts_list_complete(ctx, q="partitura.score:Score.__init__", source="iter_parts"):
+    """PARTS-all: a score lists every part of its part structure, identified by the object."""
+    rule = "PARTS-all"
+    ctx.rule(rule, f"Score.parts is built from {source}(<part list>) by list() (or an unfiltered list comprehension): no dict / set keyed by an "
+                   f"attribute in between — two distinct parts with the same id (parts loaded from separate files) are both listed")
+    from .extra import local_defs, resolve_alias
+    f = ctx.prog.func(q, rule)
+    ctx.touch(f)
+    defs = local_defs(f)
+    st = [s for s in own_nodes(f.node) if isinstance(s, ast.Assign) and len(s.targets) == 1 and norm(s.targets[0]) == "self.parts"]
+    ctx.require(len(st) >= 1, rule, q, "assignment to self.parts not found")
+    for s in st:
+        v = resolve_alias(s.value, defs)
+        ok = False
+        if isinstance(v, ast.Call) and norm(v.func) in ("list", "tuple") and len(v.args) == 1:
+            a = resolve_alias(v.args[0], defs)
+            ok = isinstance(a, ast.Call) and norm(a.func).split(".")[-1] == source
+        elif isinstance(v, ast.ListComp) and len(v.generators) == 1 and not v.generators[0].ifs and isinstance(v.elt, ast.Name) \
+                and isinstance(v.generators[0].target, ast.Name) and v.elt.id == v.generators[0].target.id:
+            a = resolve_alias(v.generators[0].iter, defs)
+            ok = isinstance(a, ast.Call) and norm(a.func).split(".")[-1] == source
+        ctx.check(ok, rule, f"{q}:self.parts", func=f, node=s, construct="parts-list-not-complete",
+                  msg=f"`self.parts = {norm(s.value)[:70]}` is not the plain list of {source}(...): parts can be dropped or merged (a dict keyed by "
+                      f"`id` keeps one of two parts that share an id), and everything that reads score.parts (merge_parts, note_array) loses their notes")
